@@ -123,12 +123,20 @@ fn assert_eq(_: &mut ExecutionContext, mut args: Args) -> ControlFlow {
         let rhs_original = rhs_arg.value.unsafe_as_quantity();
         let eps = quantity_arg!(args);
 
-        let lhs_converted = lhs_original.convert_to(eps.unit());
+        // Compare in the unit of `eps`, unless `eps` is a (polymorphic) zero, which
+        // can be converted to any unit and must not determine the unit
+        let comparison_unit = if eps.is_zero() {
+            rhs_original.unit()
+        } else {
+            eps.unit()
+        };
+
+        let lhs_converted = lhs_original.convert_to(comparison_unit);
         let lhs_converted = match lhs_converted {
             Err(e) => return ControlFlow::Break(RuntimeErrorKind::QuantityError(e)),
             Ok(q) => q,
         };
-        let rhs_converted = rhs_original.convert_to(eps.unit());
+        let rhs_converted = rhs_original.convert_to(comparison_unit);
         let rhs_converted = match rhs_converted {
             Err(e) => return ControlFlow::Break(RuntimeErrorKind::QuantityError(e)),
             Ok(q) => q,
